@@ -181,6 +181,9 @@ type SeqSpec struct {
 	Probe func(c seqCache, r *SeqRun)
 	// Terminal: do not expand after this event (e.g. Close)
 	Terminal func(r *SeqRun) bool
+	// Outside: the history left the property's antecedent (e.g. an item that does not fit):
+	// the node is neither judged nor expanded
+	Outside func(r *SeqRun) bool
 	MaxDepth int
 	// Clients is the number of client threads (default 1); AlphabetT gives the ops of client t>0.
 	Clients   int
@@ -355,6 +358,7 @@ func runHistory(spec *SeqSpec, hist []SeqEvent) *SeqRun {
 									fl = 3
 								}
 								vsched.Log(evApplied, int64(it.Key), v, fl)
+								vsched.Log(evItemCost, int64(it.Key), it.Cost, 0)
 							}
 						}
 						before := map[uint64]int64{}
@@ -427,6 +431,7 @@ func runHistory(spec *SeqSpec, hist []SeqEvent) *SeqRun {
 						fl = 3
 					}
 					vsched.Log(evApplied, int64(it.Key), v, fl)
+					vsched.Log(evItemCost, int64(it.Key), it.Cost, 0)
 				}
 			}
 			if e.K == "applier" {
@@ -666,6 +671,10 @@ func seqSearch(p *Prop, j *Job, spec *SeqSpec) *JobResult {
 				var viols []Viol
 				switch run.Outcome {
 				case vsched.Done:
+					if spec.Outside != nil && spec.Outside(run) {
+						res.Outcomes["outside-antecedent"]++
+						continue
+					}
 					viols = spec.Oracle(run)
 				case vsched.Deadlock:
 					viols = []Viol{{Key: p.ID + "/deadlock", What: run.Detail}}
